@@ -60,6 +60,26 @@ class C11(EvalFamProp):
                             checks.append(f'cfg.{k} is not cfg[{k!r}]')
                     except Exception as e:
                         checks.append(f'cfg.{k} raised {type(e).__name__}')
+            def mirror(node, val, path):
+                t = type(node)
+                if t is ConfigDict:
+                    if not isinstance(val, dict):
+                        checks.append(f'{path}: mapping node evaluated to {type(val).__name__}'); return
+                    nk = [sc_py(native_key(k)) for k, _ in node.ayns.named_children()]
+                    if list(val.keys()) != nk:
+                        checks.append(f'{path}: keys {list(val.keys())!r} do not mirror the merged tree {nk!r}'); return
+                    for k, c in node.ayns.named_children():
+                        mirror(c, val[sc_py(native_key(k))], f'{path}[{sc_py(native_key(k))!r}]')
+                elif t is ConfigList:
+                    if type(val) is not list or len(val) != node.ayns.children_count():
+                        checks.append(f'{path}: list node evaluated to {type(val).__name__} of length {len(val) if hasattr(val, "__len__") else "?"}'); return
+                    for (k, c), v in zip(node.ayns.named_children(), val):
+                        mirror(c, v, f'{path}[{k}]')
+                elif type(node).__name__.startswith('ConfigScalar'):
+                    nv = node.ayns.native_value
+                    if type(val) is not type(nv) or (val != nv and not (val != val and nv != nv)):
+                        checks.append(f'{path}: scalar {nv!r} ({type(nv).__name__}) evaluated to {val!r} ({type(val).__name__})')
+            mirror(cfg.ayns.source, cfg, 'cfg')
             if not isinstance(cfg, Bunch):
                 checks.append('result is not a Bunch')
             src = cfg.ayns.source
